@@ -134,12 +134,14 @@ class SelectStream(Stream):
         vr = rank([c.version for _, c in S.live])
         er = rank([str(c.extra_sort_info) for _, c in S.live] + [""])
         tr = rank([c.tag_score for _, c in S.live])
+        fr = rank([c.filename or "" for _, c in S.live])
         cands = []
         for i, c in S.live:
             f = S.facts(i, c)
             cands.append({"id": i, "nameOk": f["name_ok"], "ver": vr[c.version], "isPre": f["is_pre"], "tagsOk": f["tags_ok"],
                           "specOk": f["spec_ok"], "specOkPre": f["spec_ok_pre"], "typ": f["typ"],
-                          "extra": er[str(c.extra_sort_info)], "tag": tr[c.tag_score], "readable": f["readable"]})
+                          "extra": er[str(c.extra_sort_info)], "tag": tr[c.tag_score], "readable": f["readable"],
+                          "file": fr[c.filename or ""]})
         return {"op": "select", "cands": cands, "allowPre": case["allow_pre"], "hasEq": S.has_eq, "reqHasPre": S.req_has_pre,
                 "allowSdist": not case["only_binary"], "budget": case["budget"]}
 
